@@ -2,6 +2,7 @@ package main
 
 import (
 	"fmt"
+	"go/types"
 	"strings"
 
 	"golang.org/x/tools/go/ssa"
@@ -22,6 +23,7 @@ func runC03(c *Ctx, r *Report) {
 	c03Dial(c, r, "C03.R5", false)
 	c01R5(c, r, "C03.R6")
 	c01R3(c, r, "C03.R7")
+	c01R4(c, r, "C03.R8") // what was prefetched for matching is what the relay later replays: prefetch appends exactly what it read
 }
 
 func c03Proxy(c *Ctx, r *Report) {
@@ -34,11 +36,57 @@ func c03Proxy(c *Ctx, r *Report) {
 		r.bad("C03.R1", fnName, "exists", "-", "function not found")
 		return
 	}
-	sc := &Scenario{Name: "two-upstreams", MaxVisit: 6, InlineGo: true,
-		Params: map[string]SV{"recv": symRef("h", false), "p0": symRef("down", false), "p1": symSlice("ups", 2)},
-		Heap:   map[string]SV{"ups[0]": symRef("up0", false), "ups[1]": symRef("up1", false)},
-		Inline: func(f *ssa.Function) bool { return f.Parent() != nil && fname(f.Parent()) == fnName },
+	// connection kinds: *net.TCPConn can half-close (CloseWrite), *net.UDPConn cannot
+	tcpT, udpT := netType(c, "TCPConn"), netType(c, "UDPConn")
+	if tcpT == nil || udpT == nil {
+		r.bad("C03.R1", fnName, "evaluation", c.pos(fn.Pos()), "net.TCPConn / net.UDPConn types not found")
+		return
 	}
+	var paths []Path
+	pathCaps := map[int][3]bool{}
+	for _, caps := range [][3]bool{{true, true, true}, {false, false, false}, {true, false, true}, {false, true, false}} {
+		kind := func(desc string, capable bool) SV {
+			v := symRef(desc, false)
+			if capable {
+				v.DynT, v.Dyn = tcpT, typeStr(tcpT)
+			} else {
+				v.DynT, v.Dyn = udpT, typeStr(udpT)
+			}
+			return v
+		}
+		sc := &Scenario{Name: "two-upstreams", MaxVisit: 6, InlineGo: true,
+			Params: map[string]SV{"recv": symRef("h", false), "p0": symRef("down", false), "p1": symSlice("ups", 2)},
+			Heap:   map[string]SV{"ups[0]": kind("up0", caps[1]), "ups[1]": kind("up1", caps[2]), "down.Conn": kind("down.Conn", caps[0])},
+			Inline: func(f *ssa.Function) bool { return f.Parent() != nil && fname(f.Parent()) == fnName },
+		}
+		c03ProxyCalls(sc)
+		ps, err := evalPaths(fn, sc)
+		if err != nil || len(ps) == 0 {
+			r.bad("C03.R1", fnName, "evaluation", c.pos(fn.Pos()), fmt.Sprintf("undecided: %v", err))
+			return
+		}
+		for range ps {
+			pathCaps[len(pathCaps)] = caps
+		}
+		paths = append(paths, ps...)
+	}
+	c03ProxyCheck(c, r, fn, fnName, paths, pathCaps)
+}
+
+func netType(c *Ctx, name string) types.Type {
+	for _, p := range c.Pkgs {
+		for _, imp := range p.Imports {
+			if imp.PkgPath == "net" && imp.Types != nil {
+				if o := imp.Types.Scope().Lookup(name); o != nil {
+					return types.NewPointer(o.Type())
+				}
+			}
+		}
+	}
+	return nil
+}
+
+func c03ProxyCalls(sc *Scenario) {
 	sc.Call = func(callee string, args []SV, ev *symEval, st *symState) (SV, bool) {
 		switch {
 		case callee == "io.TeeReader":
@@ -50,13 +98,12 @@ func c03Proxy(c *Ctx, r *Report) {
 		}
 		return SV{}, false
 	}
-	paths, err := evalPaths(fn, sc)
-	if err != nil || len(paths) == 0 {
-		r.bad("C03.R1", fnName, "evaluation", c.pos(fn.Pos()), fmt.Sprintf("undecided: %v", err))
-		return
-	}
+}
+
+func c03ProxyCheck(c *Ctx, r *Report, fn *ssa.Function, fnName string, paths []Path, pathCaps map[int][3]bool) {
 	var p1, p2, p3 []string
-	for _, p := range paths {
+	for pi, p := range paths {
+		caps := pathCaps[pi]
 		tr := fmtTrace(p)
 		if p.Outcome != "return" {
 			p3 = append(p3, "path does not return: "+tr)
@@ -139,11 +186,19 @@ func c03Proxy(c *Ctx, r *Report) {
 				p2 = append(p2, "upstream "+u+" is neither half-closed nor closed after the client finished sending: it never observes end-of-stream")
 			}
 		}
-		dcw := false
-		for _, a := range p.Assume {
-			if strings.Contains(a, "down.Conn") && strings.Contains(a, "closeWriter") && strings.HasSuffix(a, "=true") {
-				dcw = true
+		// which kind of close each upstream must get is fixed by the scenario
+		for i, u := range []string{"up0", "up1"} {
+			want := "Close"
+			if caps[i+1] {
+				want = "CloseWrite"
 			}
+			if upClosed[u] != "" && upClosed[u] != want {
+				p2 = append(p2, fmt.Sprintf("upstream %s (half-close capable: %v) gets %s instead of %s", u, caps[i+1], upClosed[u], want))
+			}
+		}
+		dcw := caps[0]
+		if !dcw && downCW {
+			p2 = append(p2, "CloseWrite is called on a downstream that does not support it")
 		}
 		if dcw && !downCW {
 			p2 = append(p2, "the downstream supports half-close but CloseWrite is not called after the upstreams finished")
